@@ -163,7 +163,10 @@ def _parse_csv_with_units(
     _get_column_names_and_units(...) and writer helpers.
     """
     # Read as-is (no header row); keep object dtype so mixed cells don't get mangled.
-    df_full = pd.read_csv(csv_file, header=None, encoding=encoding, dtype=object)
+    # Stream / utility sheets carry free-text labels: keep strings such as "NA" or "nan" as
+    # text (only an empty cell is a missing value).
+    na_kwargs = {} if kind == "Summary" else {"keep_default_na": False, "na_values": [""]}
+    df_full = pd.read_csv(csv_file, header=None, encoding=encoding, dtype=object, **na_kwargs)
 
     # Build column names & units using your existing logic keyed by 'kind'
     col_names, col_units = _get_column_names_and_units(
@@ -198,8 +201,14 @@ def _parse_csv_with_units(
         return x
 
     # DataFrame.applymap was renamed to DataFrame.map (pandas 2.1) and later removed.
+    # Label columns (zone / stream / utility names, utility type) stay text even when they
+    # look like numbers ("2024", "007", "1e3").
+    label_cols = [] if kind == "Summary" else [c for c in ("zone", "name", "type") if c in df_data.columns]
+    labels = df_data[label_cols].copy()
     _elementwise = df_data.map if hasattr(df_data, "map") else df_data.applymap
     df_data = _elementwise(_to_number_maybe)
+    for c in label_cols:
+        df_data[c] = labels[c].where(labels[c].notna(), None)
 
     units_map = dict(zip(col_names, col_units))
 
